@@ -243,3 +243,24 @@ Theorem model_is_code_interval_components : forall delta elapsed,
   glue_Interval_in_weeks g = Z.abs (iv_in_days c) / 7 * sgn (iv_in_days c).
 Proof. exact glue_interval_components. Qed.
 Print Assumptions model_is_code_interval_components.
+
+(* ---- CROSS-ZONE, universal (pure-Python helper): two aware datetimes in DIFFERENTLY NAMED zones (cross_pair: distinct tzinfo objects, names that differ),
+   at ANY UTC offsets — also when an endpoint is the second occurrence of a repeated wall time —, the first the earlier INSTANT.  The translated
+   precise_diff moves each operand to UTC with its own offset (d - d.utcoffset(): real calendar arithmetic, p_shift), so its result has exactly the
+   years .. microseconds of precise_diff on the two UTC readings (utc_of d: the wall fields of the instant of d, offset 0; only total_days, which the
+   code takes BEFORE the shift, may differ), it satisfies the arithmetic specification pd_spec on those readings, and its components are canonical.
+   Proofs/C06Cross.v: both calls are reduced to the same tail of the translated function over the same atoms (640 leaves closed by reflexivity), then
+   pd_characterisation is APPLIED to the UTC readings.  The compiled helper is NOT covered: finding rs-cross-zone-shift. ---- *)
+From PV Require Import Proofs.C06Cross.
+
+Theorem pd_cross_zone_is_utc : forall a b, cross_pair a b -> p_instant a < p_instant b ->
+  exists r r', py_precise_diff a b = Ok r /\ py_precise_diff (utc_of a) (utc_of b) = Ok r' /\ core7 r = core7 r' /\
+               pd_spec (utc_of a) (utc_of b) r /\ wf_op (utc_of a) /\ wf_op (utc_of b) /\
+               p_wall (utc_of a) = p_instant a /\ p_wall (utc_of b) = p_instant b.
+Proof. exact pd_cross_zone_is_utc_lemma. Qed.
+Print Assumptions pd_cross_zone_is_utc.
+
+Theorem pd_cross_zone_ranges : forall a b, cross_pair a b -> p_instant a < p_instant b ->
+  exists r, py_precise_diff a b = Ok r /\ in_ranges r.
+Proof. exact pd_cross_zone_ranges_lemma. Qed.
+Print Assumptions pd_cross_zone_ranges.
